@@ -196,6 +196,21 @@ def seg_key(seq, name):
     return [list(seq), ["k", name]]
 
 
+WIDE_CODECS = ("gbk", "cp949", "big5", "euc_kr", "gb2312", "euc_jp")   # codecs of the encodings urwid calls "wide"
+
+
+def wide_pair_char(a, b):
+    """True when the two bytes are ONE character in some double-byte encoding urwid supports
+    (independent reference: Python's codecs)."""
+    for c in WIDE_CODECS:
+        try:
+            if len(bytes([a, b]).decode(c)) == 1:
+                return True
+        except UnicodeDecodeError:
+            pass
+    return False
+
+
 def utf8_valid(bs):
     try:
         s = bytes(bs).decode("utf-8")
@@ -310,7 +325,7 @@ def match_expect(pats, events):
 
 class C05(core.Check):
     pid = "C05"
-    gen_modules = ["escape_table"]
+    gen_modules = ["escape_table", "str_loops"]
     model_targets = ["theories/Model/KeyInput.vo"]
     prop_file = "theories/Properties/C05.v"
     extract_v = "Extract/C05X.v"
@@ -332,7 +347,8 @@ class C05(core.Check):
         "Coq 8.16.1 kernel (coqc; vm_compute for facts about the finite generated table and closed examples)",
         "tools/py2v/mods/escape_table.py: import-free ast evaluation of input_sequences/_keyconv/MOUSE_* (checked against the imported module by extra_checks every run)",
         "extraction: ExtrOcamlBasic only; Z/positive/string stay Coq datatypes; OCaml 4.13.1; tools/driver/driver.ml",
-        "hand-written Model/KeyInput.v (process_keyqueue, trie add/get, mouse/CPR readers, int() parsing, within_double_byte, parse_input state machine): validated by this correspondence, not proved against CPython",
+        "tools/py2v/mods/str_loops.py (C11's translator module): within_double_byte is the py2v translation of str_util.within_double_byte, regenerated every run",
+        "hand-written Model/KeyInput.v (process_keyqueue, trie add/get, mouse/CPR readers, int() parsing, UTF-8 validity table, parse_input state machine): validated by this correspondence, not proved against CPython",
         "Python oracle and fake event loop in harness/props/c05.py",
     ]
     assumptions = [
@@ -749,8 +765,17 @@ class C05(core.Check):
         step2 = 1 if tier != "quick" else 11
         for a in range(0x80, 0x100):
             for b in range(0, 0x100, step2):
-                for enc in ("utf8", "wide"):
-                    yield self.pk(enc, (a ^ b) & 1, [a, b, 0x41], "lead-x-second")
+                yield self.pk("utf8", (a ^ b) & 1, [a, b, 0x41], "lead-x-second")
+                segs = [[[a, b], ["k", chr(a) + chr(b)]], [[0x41], ["k", "A"]]] if wide_pair_char(a, b) else None
+                yield self.pk("wide", (a ^ b) & 1, [a, b, 0x41], "lead-x-second", segs)
+        # every character of the GBK / UHC first rows and a sample of the others, low and high trail bytes
+        for a in (0x81, 0x82, 0xA1, 0xC6, 0xFE):
+            for b in list(range(0x40, 0x7F)) + [0x80, 0x81, 0xA1, 0xFE]:
+                if wide_pair_char(a, b):
+                    seg = [[a, b], ["k", chr(a) + chr(b)]]
+                    yield self.pk("wide", b & 1, [a, b], "wide-char", [seg])
+                    if b % 8 == 0:
+                        yield from self.all_cuts("wide", [a, b, a, b], "wide-char-cuts", [seg, seg])
         for a in range(0x80, 0x100, 3):
             for b in (0x20, 0x3F, 0x40, 0x7E, 0x7F, 0x80, 0x81, 0xA1, 0xFE, 0xFF):
                 yield from self.all_cuts("wide", [a, b, 0x41], "wide-cuts", None)
@@ -877,25 +902,27 @@ class C05(core.Check):
 
 C05.level_text = (
     "Proved in Coq for every byte stream, every encoding mode and every read schedule, no length bound, about the model whose key "
-    "table/_keyconv/mouse constants are regenerated from escape.py each run (trie built inside Coq by the model of KeyqueueTrie.add): "
-    "progress (every successful process_keyqueue step reports >= 1 event and consumes a non-empty prefix; parse_input's loop ends "
-    "within len(codes) steps; raw + pending = input, left to right); decisive, more_is_prefix, more_flag (a result obtained while more "
-    "input was allowed is unchanged by appended bytes; MoreInputRequired is prefix-closed and never raised with more_available=False); "
-    "fragmentation_invariant (+ _from_pending, _then): any cutting of a stream into successive reads with no alarm in between gives the "
-    "same events, raw codes and pending codes as one read, and so does everything afterwards; timeout_flushes and nothing_lost (the "
-    "alarm decodes exactly the pending codes as they stand and leaves nothing pending; over any Feed/Timeout schedule raw codes + "
-    "pending = bytes read); unknown bytes pass through as one event each and what follows decodes as it would alone; every table entry "
-    "decodes to its table name whatever follows (vm_compute over the whole generated table lifted by decisive); X10 mouse (coordinates, "
-    "documented names/buttons for the xterm range), SGR mouse with decimal parameters (through the model of the M/m scan, split(';') "
-    "and int()), cursor position reports, well-formed UTF-8 characters; never_raises (process_keyqueue on a non-empty byte string returns "
-    "or asks for more input, nothing else) and screen_never_raises (a hooked Screen never raises under any Feed/Timeout schedule) - the "
-    "defect this check found (ESC in front of a cursor position report raised AttributeError) is fixed in 228c9b3 and its inputs are "
-    "regression cases in corpus/C05.  Trusted rather than proved (exact "
-    "correspondence + documentation oracle every run): that the hand model is the code (int() semantics, UTF-8 validity table vs "
-    "CPython, within_double_byte, get_input path), names of well-known keys against an independent xterm reference table.")
+    "table/_keyconv/mouse constants are regenerated from escape.py each run and whose within_double_byte is the py2v translation of "
+    "str_util.within_double_byte: progress (every successful process_keyqueue step reports >= 1 event and consumes a non-empty prefix; "
+    "parse_input's loop ends within len(codes) steps; raw + pending = input, left to right); never_raises / screen_never_raises; "
+    "decisive, more_is_prefix, more_flag; fragmentation_invariant (+ _from_pending, _then): any cutting of a stream into successive "
+    "reads with no alarm in between gives the same events, raw codes and pending codes as one read, and so does everything afterwards; "
+    "timeout_flushes and nothing_lost; unknown bytes pass through as one event each and what follows decodes as it would alone.  "
+    "The trie IS the table (trie_lookup_is_table_lookup, for ANY table on which KeyqueueTrie.add succeeds and ALL key lists: the table "
+    "is prefix-free, lookup = the unique entry that is a prefix of the keys, MoreInputRequired exactly when the keys are a proper "
+    "prefix of an entry, a leaf is only reached through an entry) with the instances input_table_prefix_free and "
+    "key_names_come_from_table (no key name is reported that is not the name of a table entry just consumed) next to "
+    "table_entries_decode (every entry decodes to its name whatever follows).  Mouse/reports: X10 (coordinates, documented "
+    "names/buttons for the xterm range), SGR with decimal parameters (through the model of the M/m scan, split(';') and int()), cursor "
+    "position reports.  Encodings: well-formed UTF-8 characters; wide mode completely for a high byte (wide_pair_decodes: one two-byte "
+    "character exactly for lead >= 0x80 with trail >= 0x80 or lead >= 0x81 with trail 0x40..0x7E, by computation of the translated "
+    "within_double_byte on all 65536 byte pairs; wide_lead_alone; wide_text_decodes: one event per character for any ASCII/double-byte "
+    "text); narrow_high_byte.  Trusted rather than proved (exact correspondence + documentation oracle every run): that the hand "
+    "model is the code (int() semantics, UTF-8 validity table vs CPython, get_input path), names of well-known keys against an "
+    "independent xterm reference table.")
 C05.level_note = (
     "Trusted: Coq kernel, the ast evaluator of the tables (cross-checked against the imported module every run), ExtrOcamlBasic "
-    "extraction + OCaml driver, the hand-written model (tied by exact correspondence on ~50k cases per quick run incl. every table entry "
+    "extraction + OCaml driver, py2v str_loops (within_double_byte), the hand-written model (tied by exact correspondence on ~50k cases per quick run incl. every table entry "
     "x every cut x timeout-or-not), the Python oracle.  Assumes byte codes 0..255, POSIX, default int digit limit 4300; gpm and resize "
     "events out of scope; synchronous get_input has no completion timer (observation recorded in the evidence).")
 
